@@ -1,5 +1,6 @@
 """Helpers shared by the bounded checks C07, C08, C09 and C18 (analysis entry points).  BOUNDED layer only."""
 import concurrent.futures as _cf
+import gc
 import multiprocessing as _mp
 import os
 import warnings
@@ -30,6 +31,64 @@ def pmap(fn, items, workers=16, chunksize=1):
     workers = max(1, min(workers, len(items), os.cpu_count() or 1))
     with _cf.ProcessPoolExecutor(max_workers=workers, mp_context=_mp.get_context("fork"), initializer=_init_worker) as ex:
         return list(ex.map(fn, items, chunksize=chunksize))
+
+
+def preimport():
+    """import (not run) the lazily imported numerical back ends in the parent so that forked children start warm"""
+    import importlib
+    for name in ("lmfit", "scipy.signal", "scipy.interpolate", "scipy.optimize", "scipy.linalg", "scipy.integrate", "scipy.stats", "pandas",
+                 "statsmodels.nonparametric.smoothers_lowess", "statsmodels.stats.diagnostic", "sympy"):
+        try:
+            importlib.import_module(name)
+        except Exception:  # noqa
+            pass
+
+
+def _isolated_child(fn, item, conn):
+    import traceback
+    try:
+        _init_worker()
+        conn.send(("ok", fn(item)))
+    except BaseException:  # noqa
+        conn.send(("error", traceback.format_exc()))
+    finally:
+        conn.close()
+
+
+def pmap_isolated(fn, items, workers=16):
+    """ordered parallel map where EVERY task runs in its own freshly forked (non-daemonic) process, so that no task sees state
+    left behind by an earlier one (lmfit/scipy keep state across aborted fits).  Harness exceptions crash the script."""
+    from multiprocessing.connection import wait
+    ctx = _mp.get_context("fork")
+    items = list(items)
+    results = [None] * len(items)
+    workers = max(1, min(workers, os.cpu_count() or 1))
+    running, nxt = {}, 0
+    gc.collect()
+    gc.freeze()        # keep the children's garbage collector from touching (and thereby copying) the parent's heap
+    while nxt < len(items) or running:
+        while nxt < len(items) and len(running) < workers:
+            parent, child = ctx.Pipe(duplex=False)
+            p = ctx.Process(target=_isolated_child, args=(fn, items[nxt], child))
+            p.start()
+            child.close()
+            running[parent] = (nxt, p)
+            nxt += 1
+        for conn in wait(list(running)):
+            i, p = running.pop(conn)
+            try:
+                status, payload = conn.recv()
+            except EOFError:
+                status, payload = "error", f"worker for item {i} died without a result (exit code {p.exitcode})"
+            conn.close()
+            p.join()
+            if status != "ok":
+                for _, q in running.values():
+                    q.terminate()
+                raise RuntimeError("harness failure in an isolated worker:\n" + payload)
+            results[i] = payload
+    gc.unfreeze()
+    return results
 
 
 def max_abs_residual(result):
